@@ -50,26 +50,26 @@ func refBIP340Verify(px, rx, s *big.Int, msg []byte) bool {
 
 // signAndVerify signs msg with the quorum's shards (Lindell22, BIP-340, round by round) and checks the signature
 // with the library verifier and with the reference verifier under the x-only form of the group public key.
-func signAndVerify(x *engine.X, tag, where, which string, shards map[sharing.ID]*proto.K256Shard, quorum []sharing.ID, msg []byte, seed int64) *bip340.Signature {
+func signAndVerify(x *engine.X, st site, which string, shards map[sharing.ID]*proto.K256Shard, quorum []sharing.ID, msg []byte, seed int64) *bip340.Signature {
 	a := libcurve.K256()
 	x.Case("")
 	sig, verr, err := proto.Lindell22SignRounds(shards, quorum, msg, seed)
 	if err != nil {
-		x.Failf(tag+"/sign/failed", "%s: Lindell22 signing by the qualified quorum %v with the %s shards failed: %v", where, quorum, which, err)
+		st.failf(x, "sign/failed", "Lindell22 signing by the qualified quorum %v with the %s shards failed: %v", quorum, which, err)
 		return nil
 	}
 	if verr != nil {
-		x.Failf(tag+"/sign/library-verifier-rejects", "%s: quorum %v, %s shards: the library verifier rejects the aggregated signature: %v", where, quorum, which, verr)
+		st.failf(x, "sign/library-verifier-rejects", "quorum %v, %s shards: the library verifier rejects the aggregated signature: %v", quorum, which, verr)
 	}
 	pk := a.ToRef(shards[quorum[0]].PublicKeyValue())
 	R, rerr := a.TryToRef(sig.R)
 	if rerr != nil || R.Inf || pk.Inf {
-		x.Failf(tag+"/sign/invalid", "%s: quorum %v, %s shards: signature nonce commitment or key is not a finite curve point (%v)", where, quorum, which, rerr)
+		st.failf(x, "sign/invalid", "quorum %v, %s shards: signature nonce commitment or key is not a finite curve point (%v)", quorum, which, rerr)
 		return sig
 	}
 	s := conv.ToBig(sig.S)
 	if !refBIP340Verify(pk.X, R.X, s, msg) {
-		x.Failf(tag+"/sign/reference-verifier-rejects", "%s: quorum %v, %s shards: BIP-340 verification (reference) rejects the signature R.x=%x s=%x under pk.x=%x", where, quorum, which, R.X, s, pk.X)
+		st.failf(x, "sign/reference-verifier-rejects", "quorum %v, %s shards: BIP-340 verification (reference) rejects the signature R.x=%x s=%x under pk.x=%x", quorum, which, R.X, s, pk.X)
 	}
 	if refBIP340Verify(pk.X, R.X, s, append(append([]byte{}, msg...), 'x')) {
 		panic(engine.HarnessError{Msg: "reference BIP-340 verifier accepts a different message"})
